@@ -25,7 +25,7 @@ func init() {
 				"information keeps an ECS record exactly when the decoded option's subnet is not the zero value (so a /0 opt-out is " +
 				"kept), and a malformed option is answered with FORMERR without calling the next stage.",
 			NotCovered: "the GeoIP data itself and the scope arithmetic of upstream answers; that the upstream honours the option.",
-			Rules: map[string]string{"C05-R12": "no slice built on a pooled byte buffer that the function gives back is stored into a longer-lived object (expected count today: zero Get/Put pairs in this code; positive instances are the seeded changes)", "C05-R11": "every maxminddb Lookup / Network call decodes into a zero value created for that call (the decoder leaves absent fields untouched)", "C05-R10": "geoip.File.Refresh: no path from installing new databases to the return skips clearing either lookup cache", "C05-R1": "handler decision tree and upstream-subnet provenance", "C05-R2": "who writes cacheRequest.subnet",
+			Rules: map[string]string{"C05-R13": "caches store and hand out clones (shared with C07-R4)", "C05-R12": "no slice built on a pooled byte buffer that the function gives back is stored into a longer-lived object (expected count today: zero Get/Put pairs in this code; positive instances are the seeded changes)", "C05-R11": "every maxminddb Lookup / Network call decodes into a zero value created for that call (the decoder leaves absent fields untouched)", "C05-R10": "geoip.File.Refresh: no path from installing new databases to the return skips clearing either lookup cache", "C05-R1": "handler decision tree and upstream-subnet provenance", "C05-R2": "who writes cacheRequest.subnet",
 				"C05-R3": "lookup order and opt-out gate", "C05-R4": "echo gates and setECS table", "C05-R5": "ECS record / FORMERR tables"},
 		}})
 }
@@ -52,6 +52,9 @@ func runC05(c *an.Ctx) {
 	c05GeoData(c)
 	c.Floor("C05-R10", 2)
 	c05RefreshClears(c)
+	// ---- R13: the ECS cache stores a copy (the message that is then finished with the client's own ECS option is not the cached one)
+	c.Floor("C05-R13", 4)
+	c07Caches(c, "C05-R13")
 	// ---- R12: the address bytes of an ECS option are the option's own (no pooled scratch buffer stays referenced)
 	c.Inf("C05-R12", "pooled scratch buffers", token.NoPos, "%d Get/Put pairs of byte buffers examined in the ECS and message code", sharedPooledBufferEscape(c, "C05-R12", "ecscache.", "dnsmsg.", "dnssvc/"))
 	// ---- R11: GeoIP records are decoded into fresh values (a network without a country does not inherit the previous one's)
